@@ -560,10 +560,18 @@ func safeGetInteger(r Getter, canObjStm bool) getIntFn {
 		if x, ok := obj.(Integer); ok {
 			return x, nil
 		}
-		if canObjStm {
-			return getInteger(r, obj)
+		resolved, err := resolve(r, obj, canObjStm)
+		if err != nil {
+			return 0, err
 		}
-		return getIntegerNoObjStm(r, obj)
+		if resolved == nil {
+			// A reference to a missing or free object is the null object,
+			// not the number 0: the stream length is unknown.
+			return 0, &MalformedFileError{
+				Err: errors.New("stream length is null"),
+			}
+		}
+		return asInteger(resolved)
 	}
 }
 
